@@ -85,6 +85,22 @@ def check_split_kwargs(cx, rep, tk=None, tdefs=None, genf=None):
         genf = [f for f, ds in tdefs.items() if any(d['value'][0] == 'call' and d['value'][1] == ('g', 'core', 'split') for d in ds)]
     tin = cx.model.find_method(MOD, tk, '__init__')
     kwp = tin[2].args.kwarg.arg if tin is not None and tin[2].args.kwarg else None
+    # split() resolves every option as kwargs.get(long, kwargs.get(short, default)): an entry the worker ADDS under a long name makes
+    # the caller's short alias invisible; an entry it removes is lost
+    LONG_WITH_ALIAS = ('energy_threshold', 'analysis_window', 'use_channel', 'validator', 'sampling_rate', 'sample_width', 'channels', 'audio_format', 'max_read', 'large_file')
+    if tin is not None and kwp is not None:
+        for l in cx.leaves_dyn(tin):
+            for e in l.effects:
+                t = e[1] if e[0] == 'call' else None
+                recv_ = t[1][1] if t is not None and t[0] == 'call' and t[1][0] == 'attr' else None
+                while recv_ is not None and recv_[0] == 'upd':
+                    recv_ = recv_[1]
+                if recv_ == ('p', kwp) and t[1][2] in ('setdefault', 'pop', 'popitem', 'clear', 'update', '__delitem__', '__setitem__'):
+                    m_ = t[1][2]
+                    keys_ = [a[1] for a in t[2][:1] if a[0] == 'c'] + [k_ for k_, _ in t[3] if m_ == 'update'] + ([kv[0][1] for kv in t[2][0][1] if kv[0][0] == 'c'] if m_ == 'update' and t[2] and t[2][0][0] == 'dict' else [])
+                    bad_ = m_ in ('pop', 'popitem', 'clear', '__delitem__') or any(k_ in LONG_WITH_ALIAS for k_ in keys_)
+                    rep.ob('F5: the worker neither removes an option from the keywords it hands to split() nor pre-sets one that has a short alias', not bad_, cx.where(MOD, e[3]), 'TokenizerWorker.__init__:kwargs-%s' % m_,
+                           'kwargs.%s(%s) before split(**kwargs)' % (m_, ', '.join(map(repr, keys_))))
     for f in genf:
         for d in tdefs[f]:
             kws = dict(d['value'][3])
@@ -155,6 +171,13 @@ def check(repo, rep):
                             nonblocking = ('timeout' in kws and not (isinstance(kws['timeout'], ast.Constant) and kws['timeout'].value is None)) or \
                                 ('block' in kws and isinstance(kws['block'], ast.Constant) and kws['block'].value is False) or (len(call.args) >= 2)
                             rep.ob('F2: every blocking get carries a timeout (a worker can always notice its stop marker)', nonblocking, cx.where(mod, n), '%s.%s:get-without-timeout' % (cl.name if cl else mod, fn.name if fn else '?'))
+                    elif isinstance(par, ast.Attribute) and par.attr in ('put', 'get_nowait', 'put_nowait') and isinstance(getattr(par, '_parent', None), ast.Assign) \
+                            and all(isinstance(t_, ast.Name) for t_ in par._parent.targets):
+                        # local = self._inbox.get_nowait : a bound method of the queue kept in a local of the worker's own method (a hoisted
+                        # lookup); the queue itself goes nowhere and these methods never block
+                        rep.ob('F2: the inbox is used only through put / get / get_nowait', True, cx.where(mod, n))
+                    elif isinstance(par, ast.Attribute) and par.attr == 'get' and isinstance(getattr(par, '_parent', None), ast.Assign):
+                        rep.unknown('%s.%s: the blocking get of the inbox is bound to a local; whether every call of it carries a timeout is not followed' % (cl.name if cl else mod, fn.name if fn else '?'))
                     else:
                         rep.ob('F2: the inbox object does not escape', False, cx.where(mod, n), '%s.%s:inbox-escapes' % (cl.name if cl else mod, fn.name if fn else '?'))
     rep.floor('inbox accesses', nacc, 4)
@@ -186,9 +209,24 @@ def check(repo, rep):
     DATAVAL = (7, 'a-region')
     taken = dict(stop=[], none=[], data=[])
     undecided = None
+    getter_iter = any(e[0] in ('loop-enter', 'loop-skip') and e[1] is not None and any(x == ('attr', ('self',), '_get_message') or (x[0] == 'attr' and x[1] == ('self',) and x[2] in pr.inbox) for x in walk(e[1]))
+                      for l in rl for e in l.effects)
+    if getter_iter:
+        # the loop runs over an iterator built FROM the message getter (iter(self._get_message, STOP), filter(...)): the messages are
+        # taken inside that iterator, one per step, which the path evaluator does not follow
+        rep.unknown('Worker.run: the loop iterates over an iterator built from the message getter; the per-message cases are not followed')
+        undecided = 'iterator over the message getter'
+        rl = []
     for l in rl:
         msgs = pr.message_terms(l)
         if len({id(e[3]) for e in l.effects if e[0] == 'call' and e[1] in msgs}) != 1:
+            gm_name = '_get_message'
+            if not msgs and any(e[0] == 'loop-enter' and any(x == ('attr', ('self',), gm_name) or (x[0] == 'attr' and x[1] == ('self',) and x[2] in pr.inbox) for x in walk(e[1])) for e in l.effects):
+                # the loop runs over an iterator built FROM the message getter (iter(self._get_message, STOP), filter(...)): the messages
+                # are taken inside that iterator, one per step, which the path evaluator does not follow
+                rep.unknown('Worker.run: the loop iterates over an iterator built from the message getter; the per-message cases are not followed')
+                undecided = undecided or 'iterator over the message getter'
+                continue
             if any(e[0] == 'loop-enter' for e in l.effects) or not msgs:
                 rep.ob('F3: one message is taken per loop iteration', False, where, 'Worker.run:messages-per-iteration', '%d message reads on a path' % len(msgs))
             continue
@@ -449,7 +487,12 @@ def check(repo, rep):
         rep.unknown('TokenizerWorker.start_all not found')
     else:
         anyloop = any(e[0] == 'loop-enter' and e[1][0] == 'attr' and e[1][2] in obs_f for l in cx.leaves_dyn(sa_) for e in l.effects)
-        rep.ob('F8: start_all starts the observers (a loop over the observer list exists)', anyloop, cx.where(sa_[0], sa_[2]), 'TokenizerWorker.start_all:no-observer-loop')
+        functional = any(any(x[0] == 'attr' and x[1] == ('self',) and x[2] in obs_f for x in walk(e[1])) and any(y[0] in ('gen', 'listcomp') or (y[0] == 'call' and term_name(y[1]).split('.')[-1] in ('map', 'filter')) for y in walk(e[1]))
+                         for l in cx.leaves_dyn(sa_) for e in l.effects if e[0] in ('call', 'eval'))
+        if not anyloop and functional:
+            rep.unknown('TokenizerWorker.start_all: the observers are walked by map() / a comprehension, not by a loop statement; what is called on each of them is not followed')
+        else:
+            rep.ob('F8: start_all starts the observers (a loop over the observer list exists)', anyloop, cx.where(sa_[0], sa_[2]), 'TokenizerWorker.start_all:no-observer-loop')
         for l in cx.leaves_dyn(sa_):
             ins = [e for e in l.effects if e[0] == 'loop-enter']
             selfstart = [e for e in l.effects if e[0] == 'call' and e[1] == ('call', ('attr', ('self',), 'start'), (), ())]
